@@ -487,19 +487,22 @@ def _c0304(prop, tier):
         tasks += rep_tasks([prop], (0, 0), graphs=["fan5"], params=[("one-batch-q2", dict(size=5, nproc=2)), ("sz2-q1", dict(size=2, nproc=1)), ("local", dict(nproc=2))],
                            exit_sets=lambda n: [None, (1, 0, 0, 0, 0), (0, 1, 0, 0, 0)], cancel_sets=lambda n: [(0, 1, 0, 1, 0)], stutter=1)
         tasks += backlog_tasks([prop])
+        # a job killed by a signal has a NEGATIVE return code (-9): it failed, on the node and for the submitter alike
+        tasks += outcome_tasks([prop], ns=(2, 3), codes=(0, -9), params=[C03_PARAMS[1], C03_PARAMS[5]])
         tasks += rep_tasks([prop], (0, 0), graphs=["indep11"], params=[("sz1-mx2", dict(size=1, max_nodes=2))], finish_orders="default")
         tasks += rep_tasks([prop], (0, 0), graphs=["cancelfan7"], params=[("one-batch-q2", dict(size=7, nproc=2)), ("sz3-q2", dict(size=3, nproc=2))],
                            exit_sets=lambda n: [(0, 1, 0, 0, 0, 0, 0)], cancel_sets=lambda n: [(0, 0, 1, 1, 1, 0, 0)], stutter=1)
         bounds = ("G(1..3) x exit codes {0,1}^n x cancel flags on blocked jobs x 7 parameter sets (incl. two groups, max-nodes 1, local, time-based) "
-                  "at budget 0 with all finish orders; 5 REP graphs x single failures x flags at 1 preemption with the recovery actor; a user-run try-submit-jobs at any point (1 preemption on 2-job graphs, budget 0 on 3-job graphs); --no-distributed-submitter with the user running try-submit-jobs at any time; a 5-job fan-out and a 7-job cancel fan-out; 11 batches (two-digit batch numbers)")
+                  "at budget 0 with all finish orders; 5 REP graphs x single failures x flags at 1 preemption with the recovery actor; a user-run try-submit-jobs at any point (1 preemption on 2-job graphs, budget 0 on 3-job graphs); --no-distributed-submitter with the user running try-submit-jobs at any time; a 5-job fan-out and a 7-job cancel fan-out; 11 batches (two-digit batch numbers); G(2..3) x exit codes {0,-9 (killed by a signal)}^n x flags x {2 per batch, local}")
     else:
         tasks = outcome_tasks([prop], ns=(1, 2, 3))
         tasks += outcome_tasks([prop], ns=(2, 3), codes=(0, 2, 255), params=C03_PARAMS[:2])
+        tasks += outcome_tasks([prop], ns=(2, 3), codes=(0, -9), params=C03_PARAMS[:6])
         tasks += rep_tasks([prop], (2, 0), params=REP_PARAMS, exit_sets=fail_sets, cancel_sets=flag_sets)
         tasks += user_round_tasks([prop], (2, 0), ["pair", "chain2"], params=[("sz1-mxN", dict(size=1, max_nodes=None))])
         tasks += user_round_tasks([prop], (1, 0), ["indep3", "fork", "chain3"], heavy_too=True)
         tasks += manual_submitter_tasks([prop], (1, 0), ["pair", "chain2", "fork", "indep3"])
-        bounds = "as quick plus exit codes {0,2,255}; all REP graphs x single failures x flags at 2 preemptions"
+        bounds = "as quick plus exit codes {0,2,255} and {0,-9} on all parameter sets; all REP graphs x single failures x flags at 2 preemptions"
     tasks += resub_slice_tasks([prop + "R"], tier, prop.lower())
     if prop == "C04" or tier == "thorough":
         tasks += resub_mixed_tasks([prop + "R"], tier, prop.lower())
@@ -692,11 +695,11 @@ from . import echecks2  # noqa: E402,F401
 @check("C17")
 def c17(tier):
     return modee.enum_check(
-        "C17", tier, ["c17_roundtrip", "c17_invalid"],
+        "C17", tier, ["c17_roundtrip", "c17_invalid", "c17_reordered"],
         "cases: (a) the finite domain D17 (1-3 jobs; names over {unset,'a','job_1','7'} distinct; blocked_by = every DAG, blockers written as ints or strings; "
-        "8 optional-field vectors; 1-3 groups; plus all 16 lifecycle-command combinations) built through the public models, dumped, loaded with create_config_from_file, compared, dumped again, accepted by JobSubmitter.create; "
-        "(b) valid configurations (D17 with <=2 jobs and a 3-job slice) x 9 single invalidities + 2 valid controls, injected into the JSON file and run through the real `jade submit-jobs` as the login process over the simulated scheduler "
-        "(rejected with InvalidConfiguration and zero sbatch, or accepted with >=1 sbatch). non-trivial: more than one job, or an optional field / invalidity present",
+        "9 optional-field vectors (incl. an estimate of 0 minutes); 1-3 groups; plus all 16 lifecycle-command combinations) built through the public models, dumped, loaded with create_config_from_file, compared, dumped again, accepted by JobSubmitter.create; "
+        "(b) valid configurations (D17 with <=2 jobs and a 3-job slice) x 13 single invalidities (incl. an integer blocker that is a job's generated id but nobody's name) + 2 valid controls, injected into the JSON file and run through the real `jade submit-jobs` as the login process over the simulated scheduler "
+        "(rejected with InvalidConfiguration and zero sbatch, or accepted with >=1 sbatch); (c) every other listing order of the dumped job list for 2-3 jobs with at least one unnamed job (names, blockers, acceptance unchanged). non-trivial: more than one job, or an optional field / invalidity present",
         E_ASSUMPTIONS)
 
 
